@@ -28,7 +28,7 @@ def demoEv : Events := [(0, 7)]
 
 set_option maxRecDepth 8192 in
 /-- the demo program is well-ranked (operands have smaller indices), so every entry is resolved -/
-example : WellRanked demo id := ⟨by decide, by decide⟩
+example : WellRanked demo id := ⟨by decide, by decide, by decide⟩
 
 section
 variable {sp : Spec} {ev : Events} {i : Nat}
